@@ -1,5 +1,6 @@
 (* C12/Lists.v — pointwise facts about the list vocabulary of C12/Model.v (zn, zslice, zskip, upd_range). *)
-From CF Require Import Common.Bytes C12.Model.
+From CF Require Import Common.Bytes.
+From CF Require Import C12.Model.
 From Coq Require Import ZifyBool.
 Open Scope Z_scope.
 
